@@ -4,7 +4,7 @@ import re
 from ..cfg import Renderer, walk, show, flat_guards, branches
 from ..facts import callee_names, short
 from ..sig import fn_tokens
-from ..util import view, crate_fns, root_name, expr_calls, expr_fields, expr_vars, loops, last_field, emission_blocks
+from ..util import view, crate_fns, root_name, expr_calls, expr_fields, expr_vars, loops, last_field, emission_blocks, field_writes
 
 EXPLANATION = (
     "Static rules over daemon/src/event/export.rs, peer_tx.rs, event/mod.rs and table_manager.rs (MIR): R01.1 the initial dump "
@@ -35,6 +35,10 @@ def run(prog, rep, tier):
     check_pending(prog, r4)
     r5 = rep.rule("R01.5", "process_nlri_change receives untruncated ranked lists for add-path sessions")
     check_untruncated(prog, r5)
+    r6 = rep.rule("R01.6", "the export map that records what was sent is the one the initial dump wrote into; destination ids (its keys) are unique among live prefixes")
+    check_export_map_lifetime(prog, r6)
+    from . import c06 as _c06
+    _c06.check_ids(prog, r6)
 
 
 def check_register(prog, r):
@@ -374,3 +378,27 @@ def _iter_source(prog, cv, b):
                                 for cb, ct in cv.calls(re.compile(r".*collect_loc_rib_paths_limited")):
                                     out.append(rend.call_expr(ct, 10, cb))
     return out
+
+
+# ---------------------------------------------------------------------------------------------- R01.6
+def check_export_map_lifetime(prog, r):
+    """on_established starts the session with a fresh ExportMap and then takes the initial dump under register_peer; the dump
+    marks every route it sends in that map.  A (re)assignment of the map after the dump throws those marks away: a later
+    withdrawal of a dumped route finds nothing marked as sent and is suppressed."""
+    k = prog.one(r"rustybgpd::event::PeerSession::on_established")
+    fv = view(prog, prog.body_key(k))
+    r.analysed(prog.name(k))
+    dumps = [b for b, t in fv.calls(re.compile(r"rustybgpd::table_manager::TableManager::register_peer$"))]
+    if not dumps:
+        r.unanalysable("on_established: no call of TableManager::register_peer", fv.loc())
+        return
+    writes = [b for b, si, s_ in field_writes(fv, "export_map")]
+    writes += [b for b, t in fv.calls() if t.get("dest") and last_field(t["dest"]) == "export_map"]
+    late = [w for w in writes if any(w in fv.reach_after(d) for d in dumps)]
+    if late:
+        r.fail(prog.name(k), "export-map-reset-after-dump", "self.export_map is assigned (line %d) after the initial dump taken under register_peer: the marks of everything the dump sent are "
+               "discarded, so later withdrawals of those routes are never sent" % fv.line(late[0]), fv.loc(late[0]))
+    elif writes:
+        r.ok("on_established: the ExportMap is created before the initial dump and not replaced afterwards")
+    else:
+        r.ok("on_established: the ExportMap is not replaced around the initial dump")
